@@ -8,6 +8,12 @@ checks = {
  'C04': dict(cat='proof', text="Every obligation generated from the real bodies of ProcessInput, ValidateCompiledWithConfiguration, ValidateWithConfiguration, Validate, ValidateCompiled and the four pkg wrappers is discharged by an SMT solver for all inputs: when encoding/json reports a decode error the entry point returns a non-nil error and an empty report (modular: each caller is checked against the callee's contract).",
               note="Assumed: encoding/json Decoder.Decode returns an error exactly when no complete JSON value can be read (A-JSON). The JSON-LD rejection half (json-gold Flatten error) is a panic site covered under C17, not an error return. js/ (WASM wrapper) is not loaded (build tag).",
               tech="contract-based deductive verification: weakest-precondition style VCs from the Go AST (govc), discharged by z3/cvc5", ref="5/C04"),
+ 'C03': dict(cat='proof', text="Report side, for all result lists and configurations: buildResults gives every result the severity of its bucket (three loop invariants over the JSON heap), BuildReport is checked at the call of ValidationReportNode against the statement's own wording (conforms iff no result has Violation severity; every result has one of the three level severities), ValidationReportNode writes exactly the keys @id/@type/profileName/conforms/dateCreated/result with dateCreated present iff configured and result present iff non-empty; the context builders read only the two schema IRIs. 83 obligations, all discharged.",
+              note="Assumed: OPA returns fresh, pairwise distinct result maps (A-OPA4, requires-assumed on buildResults) of the asserted shapes (A-OPA8); strings.Title on the three level words; encoding/json in Encode. Generator/parser side of the level mapping (rule head = lower-cased level, default <level> = []) is pinned by the golden files and additionally covered under C01/C07 where claimed.",
+              tech="contract-based deductive verification (heap maps as SMT arrays, quantified frame postconditions, loop invariants), govc + z3/cvc5", ref="5/C03"),
+ 'C18': dict(cat='proof', text="Ghost model of the process (exitCode), stdout and the output file (exists/writable/content/offset/append). For every prior file state and every library result: exit 0 implies stdout == old ++ report ++ newline (4 args) or file content == report (5 args); any library error gives a non-zero exit and unchanged stdout; generate/normalize print exactly the library's values. 94 obligations over 18 functions, all discharged.",
+              note="Assumed contracts of os/fmt/ioutil primitives (spec in govc/ghost.go), one output path, the library's results named as functions of its inputs (ensures-assumed clauses, justified by C06); a panic inside the CLI is modelled as exit status 2 with nothing further printed.",
+              tech="contract-based deductive verification with a file-system/stdout ghost model, govc + z3/cvc5 (string theory)", ref="5/C18"),
  'C11': dict(cat='proof', text="Ghost protocol state (chanClosed, evOpen, evNext, evCur) is updated by the translation of channel send/close; every send must satisfy the stage-order assertion, every exported validator closes the channel exactly once on every return path, CompileProfile closes only on error. 94 obligations (pre/post/ghost/safety) over 18 functions, all discharged for all inputs and all failure stages.",
               note="Assumed: the caller drains the channel (A-DRAIN, blocking is not modelled); panics are not returns (C17). Milestones part: see level_note in evidence (GenerateMilestonesFromEvents contract pending).",
               tech="contract-based deductive verification with ghost state: VCs from the Go AST (govc), discharged by z3/cvc5", ref="5/C11"),
